@@ -52,7 +52,7 @@ def integer_group(ctx, world, ev):
     b = Sym("b", "bytes")
     outs = ev.run_method(g, "bytes_to_element", [b], st=st.fork())
     rets = session.rets(outs)
-    ctx.total(rets, outs, "D-total", "integer group: bytes_to_element(b) has no accepting path")
+    ctx.require(rets, "integer group: bytes_to_element(b) has no accepting path (a decoder that refuses everything is strict; C15 decides whether it inverts the encoder)")
     ctx.count("decoder_paths", len(outs))
     f = st.heap[g.oid]
     width = gm.attr_of(ev, g, "element_size_bytes", st)
@@ -74,9 +74,7 @@ def integer_group(ctx, world, ev):
         ctx.ob("D3", inst, ok, "membership: pow(i, q, p) == 1 on the accepting path" if ok else
                "accepting path lacks the subgroup membership test pow(i, q, p) == 1", fsite)
         r = o.value
-        okr = isinstance(r, Obj) and o.state.heap[r.oid].get("_e", None) == val or \
-            (isinstance(r, Obj) and val in o.state.heap[r.oid].values())
-        okg = isinstance(r, Obj) and g in o.state.heap[r.oid].values()
+        okr = okg = gm.int_element_value(st, g, o.state, r) == val
         ctx.ob("Dret", inst, okr and okg, "returns the element holding exactly the decoded integer, in this group" if okr and okg else
                "returned element does not hold the decoded integer be2int(b) / the receiving group", fsite,
                witness=show(r))
@@ -97,7 +95,7 @@ def ed25519(ctx, world, ev):
     b = Sym("b", "bytes")
     outs = ev.run_method(G, "bytes_to_element", [b], st=world.static.fork())
     rets = session.rets(outs)
-    ctx.total(rets, outs, "D-total", "Ed25519: bytes_to_element(b) has no accepting path")
+    ctx.require(rets, "Ed25519: bytes_to_element(b) has no accepting path (a decoder that refuses everything is strict; C15 decides whether it inverts the encoder)")
     ctx.count("decoder_paths", len(outs))
     width = gm.attr_of(ev, G, "element_size_bytes", world.static)
     ctx.require(isinstance(width, Const), "anchor vanished: Ed25519 group element_size_bytes")
